@@ -210,9 +210,30 @@ class Section(Entity):
         if not children:
             for prop in obj.props:
                 self.sections[name].create_property(copy_from=prop, keep_copy_id=keep_id)
+            self._copy_link_target(obj, self.sections[name], keep_id)
 
         # by name: with kept ids the original shares the id
         return self.sections[name]
+
+    @staticmethod
+    def _copy_link_target(obj, newsec, keep_id):
+        """
+        A non-recursive copy leaves only an empty stub of the section's link
+        target (no properties, so the inherited properties are lost). Replace
+        the stub by a complete copy of the target, as the recursive copy makes.
+        """
+        h5src, h5new = obj._h5group.group, newsec._h5group.group
+        if "link" not in h5src:
+            return
+        if "link" in h5new:
+            del h5new["link"]
+        h5src.copy(source="link", dest=h5new, name="link")
+        if not keep_id:
+            def change_id(_, igrp):
+                if "entity_id" in igrp.attrs:
+                    igrp.attrs.modify("entity_id", np.bytes_(util.create_id()))
+            change_id(None, h5new["link"])
+            h5new["link"].visititems(change_id)
 
     @property
     def reference(self):
